@@ -108,6 +108,19 @@ class Report:
         if text not in self.assumptions:
             self.assumptions.append(text)
 
+    def absorb(self, other: 'Report', rule_map):
+        """take over the instances of a dependency's report, renaming rule prefixes (old prefix -> new prefix)"""
+        for i in other.instances:
+            rule = i.rule
+            for a, b in rule_map.items():
+                if rule == a or rule.startswith(a + '.'):
+                    rule = b + rule[len(a):]
+                    break
+            else:
+                continue
+            self.instances.append(Instance(rule, i.construct, i.status, i.detail, i.loc, i.extra))
+        self.inspected += other.inspected
+
     # -- queries
     def by_status(self, st):
         return [i for i in self.instances if i.status == st]
